@@ -19,6 +19,7 @@ def bit (s : String) (pre : String) : Bool := s == pre ++ "1"
 def parseEntry (s : String) : Entry :=
   (s.splitOn ",").foldl (fun e t =>
     if t.startsWith "p" && (t.drop 1).toString.toNat?.isSome then { e with nameParts := (t.drop 1).toString.toNat?.getD 3 }
+    else if t.startsWith "nl" then { e with nameLong := bit t "nl" }
     else if t.startsWith "ne" then { e with nameEmpty := bit t "ne" }
     else if t.startsWith "ep" then { e with emptyPart := bit t "ep" }
     else if t.startsWith "x" then { e with exist := bit t "x" }
